@@ -176,7 +176,8 @@ theorem hdr_length (cs : List (List Byte)) (h : cs.length ≤ 15) : (hdr cs).len
   omega
 
 theorem encodeFrame_of_segments (i : Info) (src : Array Byte) (B : List Byte) (O : List Nat)
-    (h0 : src.size ≠ 0) (hn' : ¬ (i.numberOfSegments > 15))
+    (h0 : src.size ≠ 0)
+    (hn' : ¬ (i.numberOfSegments < 1 ∨ i.numberOfSegments > 15 ∨ i.pixelCount < 1))
     (hB : encodeSegments i src i.numberOfSegments 0 [] [] false = .ok (B, O, false)) :
     encodeFrame i src =
       .ok (le32 O.length ++ (O ++ List.replicate (15 - O.length) 0).flatMap le32 ++ padE B) := by
@@ -198,22 +199,24 @@ theorem encodeSegments_all (i : Info) (src : Array Byte) (P : Nat → List Byte)
   exact ⟨B, hB, hpad⟩
 
 theorem encodeFrame_stream (i : Info) (src : Array Byte) (cs : List (List Byte))
-    (h0 : src.size ≠ 0) (hn : i.numberOfSegments ≤ 15)
+    (h0 : src.size ≠ 0) (hn : i.numberOfSegments ≤ 15) (hn1 : 1 ≤ i.numberOfSegments)
+    (hpc : 1 ≤ i.pixelCount)
     (hP : ∃ B, encodeSegments i src i.numberOfSegments 0 [] [] false = .ok (B, offsOf 64 cs, false) ∧
       padE B = cs.flatten) :
     encodeFrame i src = .ok (mkStream cs) := by
   obtain ⟨B, hB, hpad⟩ := hP
-  have hn' : ¬ (i.numberOfSegments > 15) := by omega
+  have hn' : ¬ (i.numberOfSegments < 1 ∨ i.numberOfSegments > 15 ∨ i.pixelCount < 1) := by omega
   rw [encodeFrame_of_segments i src B _ h0 hn' hB, hpad]
   simp [mkStream, hdr, offsOf_length]
 
 theorem encodeFrame_eq (i : Info) (src : Array Byte) (P : Nat → List Byte)
-    (h0 : src.size ≠ 0) (hn : i.numberOfSegments ≤ 15)
+    (h0 : src.size ≠ 0) (hn : i.numberOfSegments ≤ 15) (hn1 : 1 ≤ i.numberOfSegments)
+    (hpc : 1 ≤ i.pixelCount)
     (hP : ∀ t, t < i.numberOfSegments →
       readPlane src (i.segStart t) i.segStride i.pixelCount = some (P t)) :
     encodeFrame i src =
       .ok (mkStream ((List.range' 0 i.numberOfSegments).map fun t => chunkOf (P t))) :=
-  encodeFrame_stream i src _ h0 hn (encodeSegments_all i src P hP)
+  encodeFrame_stream i src _ h0 hn hn1 hpc (encodeSegments_all i src P hP)
 
 theorem stream_rd_count (cs : List (List Byte)) (h : cs.length ≤ 15) :
     rd32 (mkStream cs) 0 = cs.length := by
